@@ -147,6 +147,17 @@ func (c *Ctx) Finish(level string) int {
 		}
 	}
 	sort.SliceStable(c.Obls, func(i, j int) bool { return c.Obls[i].Key() < c.Obls[j].Key() })
+	// VERIF_OBLIGATIONS=<file>: every obligation with its location, one JSON object per line (used by
+	// tools/mutcampaign.py to find the functions a check reads)
+	if path := os.Getenv("VERIF_OBLIGATIONS"); path != "" {
+		if f, err := os.Create(path); err == nil {
+			enc := json.NewEncoder(f)
+			for _, o := range c.Obls {
+				enc.Encode(map[string]string{"rule": o.Rule, "construct": o.Construct, "loc": o.Loc, "verdict": o.Verdict})
+			}
+			f.Close()
+		}
+	}
 	var viol, knownHit []Obligation
 	ok := 0
 	distinct := map[string]bool{}
